@@ -1148,6 +1148,15 @@ class PSBTIn:
                 or script_pubkey.is_p2wpkh()
             ):
                 raise ValueError("Witness UTXO provided for non-witness input")
+            if self.redeem_script:
+                # the RedeemScript has to be the one the p2sh ScriptPubKey commits to
+                if (
+                    not script_pubkey.is_p2sh()
+                    or self.redeem_script.hash160() != script_pubkey.commands[1]
+                ):
+                    raise ValueError(
+                        "RedeemScript hash160 and ScriptPubKey hash160 do not match"
+                    )
             if self.witness_script:  # p2wsh or p2sh-p2wsh
                 if not script_pubkey.is_p2wsh() and not (
                     self.redeem_script and self.redeem_script.is_p2wsh()
@@ -1189,6 +1198,8 @@ class PSBTIn:
                         )
         else:
             # non-witness input
+            if self.witness_script:
+                raise ValueError("WitnessScript provided without a witness UTXO")
             if self.redeem_script:
                 if not script_pubkey.is_p2sh():
                     raise ValueError("RedeemScript defined for non-p2sh ScriptPubKey")
@@ -1717,6 +1728,13 @@ class PSBTOut:
                 except ValueError:
                     raise ValueError(f"pubkey is not in WitnessScript {self}")
         elif self.redeem_script:
+            # the RedeemScript has to be the one the p2sh ScriptPubKey commits to
+            if not script_pubkey.is_p2sh():
+                raise KeyError("RedeemScript included in non-p2sh output")
+            if self.redeem_script.hash160() != script_pubkey.commands[1]:
+                raise ValueError(
+                    "RedeemScript hash160 and ScriptPubKey hash160 do not match"
+                )
             for sec in self.named_pubs.keys():
                 try:
                     # this will raise a ValueError if it's not in there
